@@ -5,7 +5,7 @@ Reads (never imports/executes) curves/src/k256/base_field.rs, finds every `fn` o
 `impl` blocks and classifies its body into one of the expression shapes the Lean model
 `MidnightZK.C10.KBody` understands (normalising binary/unary operator, predicate on the
 normalised value, fold with the wrapper's own operator, raw k256 result, encoder, constructor
-from a canonical value, constructor from a foreign lazy value, delegation, select).  A body
+from a canonical value, normalising constructor from a foreign lazy value, delegation, select).  A body
 that matches no shape is emitted as `unknown` with its text: the theorem
 `k256_wrapper_normalisation_discipline` of Props/C10.lean (every body is safe on the values the
 wrapper stores) then fails — e.g. when an arithmetic method stops normalising or `Sum` starts
@@ -117,7 +117,10 @@ def classify(name, body):
         return ("rawEnc", "")
     if re.fullmatch(r"Self\(k256::FieldElement::conditional_select\(&a\.0, &b\.0, choice\)\)", b):
         return ("select", "")
+    if re.fullmatch(r"Self\(fe\.normalize\(\)\)", b):
+        return ("foreignNorm", "")
     if re.fullmatch(r"Self\(fe\)", b):
+        # the pinned (defective) body: a caller-supplied lazy element stored as is
         return ("foreign", "")
     if re.fullmatch(r"iter\.copied\(\)\.(sum|product)\(\)", b):
         return ("delegate", m_name(b))
